@@ -2,7 +2,7 @@
    Directives used: those of ExtrOcamlBasic (bool, option, unit, list, prod, sumbool, comparison -> OCaml natives)
    and of ExtrOcamlString (ascii -> char, string -> char list).  nat, positive, N, Z stay extracted inductives. *)
 From Coq Require Import ExtrOcamlBasic ExtrOcamlString.
-From SV Require Import Quote Quote51 QuoteX QuoteMore Bracket Number Expr Parens DiffJson DiffUnified Sched CliModel SortReq CfgSearch Select Lex Census Trivia CallForm.
+From SV Require Import Quote Quote51 QuoteX QuoteMore Bracket Number Expr Parens DiffJson DiffUnified Sched CliModel SortReq CfgSearch Select Lex Census Trivia CallForm Fmt0.
 Extraction Language OCaml.
 Cd "../.cache/ml".
 Separate Extraction
@@ -21,5 +21,6 @@ Separate Extraction
   CfgSearch.run CfgSearch.spec CfgSearch.resolve Select.processed Select.wanted
   Lex.lex Census.census Census.census_eq Census.first_missing Census.erase Census.ws_check Census.str_den
   Trivia.lead Trivia.trail Trivia.fmt_comment
-  CallForm.call_form CallForm.form_ok CallForm.space_definition CallForm.space_call.
+  CallForm.call_form CallForm.form_ok CallForm.space_definition CallForm.space_call
+  Fmt0.format0 Fmt0.nprog Fmt0.pprog.
 Cd "../../coq".
